@@ -31,7 +31,7 @@ CONSTANTS
   Dev       \* deviations: subset of DevNames
 
 DevNames == {"FlightLeakOnAbandon", "AbandonSentOnly", "NoFwdResend", "FwdSeqBackward",
-             "PruneAllStreams", "PopNoReset", "NoT3OnRetx", "DupNotFiltered", "NoPopAfterPrune"}
+             "PruneAllStreams", "PopNoReset", "NoT3OnRetx", "DupNotFiltered", "NoPopAfterPrune", "NoFlushOnSack"}
 
 VARIABLES snd, rcv, net, sentH, dlvH, badH, nDrop, nDup, nT3, healed, act
 
@@ -227,7 +227,7 @@ RecvSack(s0, cum, gaps) ==
         s4 == IF s3.sentq = <<>> THEN [s3 EXCEPT !.t3 = FALSE]
               ELSE IF np > 0 THEN [s3 EXCEPT !.t3 = TRUE] ELSE s3
         s5 == UpdateAdv(s4)
-        fl == Flush(s5, <<>>)
+        fl == IF "NoFlushOnSack" \in Dev THEN <<s5, <<>>>> ELSE Flush(s5, <<>>)
     IN Transmit(fl[1], fl[2])
 
 \* _t3_expired (followed by the _transmit task it schedules)
@@ -258,7 +258,7 @@ PopStep(re, pos, sp, exp, ord, sq, out) ==
              sq2 == IF ord /\ c.sseq = sq THEN sq + 1 ELSE sq
              o2 == Append(out, [msg |-> c.msg, ok |-> (frs = TsnSeq(c.msg))])
          IN IF "PopNoReset" \in Dev
-              THEN Pop(re2, sp, sp, exp + 1, ord, sq2, o2)   \* old code: scan state kept
+              THEN Pop(re2, sp, sp, exp + 1, ord, sq2, o2)   \* old code: scan state kept (harmless since 9e4865d)
               ELSE Pop(re2, sp, 0, exp + 1, ord, sq2, o2)
     ELSE Pop(re, pos + 1, sp, exp + 1, ord, sq, out)
 
@@ -267,12 +267,15 @@ Pop(re, pos, sp, exp, ord, sq, out) ==
   ELSE LET c == CT[re[pos]] IN
     IF sp = 0
       THEN LET o == ~c.u IN
-           IF ~c.b THEN (IF o THEN [re |-> re, seq |-> sq, out |-> out]
-                             ELSE Pop(re, pos + 1, 0, exp, o, sq, out))
-           ELSE IF o /\ c.sseq > sq THEN [re |-> re, seq |-> sq, out |-> out]
+           \* a chunk that cannot start a deliverable message is skipped, it does not block
+           \* what follows (fragment without its beginning; stream sequence number ahead)
+           IF ~c.b THEN Pop(re, pos + 1, 0, exp, o, sq, out)
+           ELSE IF o /\ c.sseq > sq THEN Pop(re, pos + 1, 0, exp, o, sq, out)
            ELSE PopStep(re, pos, pos, re[pos], o, sq, out)
       ELSE IF re[pos] # exp
-             THEN (IF ord THEN [re |-> re, seq |-> sq, out |-> out]
+             \* the message that starts at sp is incomplete; an ordered stream looks at this
+             \* chunk again (it may start another message), an unordered one moves on
+             THEN (IF ord THEN Pop(re, pos, 0, exp, ord, sq, out)
                           ELSE Pop(re, pos + 1, 0, exp, ord, sq, out))
              ELSE PopStep(re, pos, sp, exp, ord, sq, out)
 
